@@ -16,11 +16,11 @@ CONF = dict(
         'ideal hash: C20_extract_build, C20_matches_are_leaves and C20_altered_hash_changes_root_or_rejects take an injective node hash H (H a b = H c d -> a = c /\\ b = d) as hypothesis; C20_extract_build_sha256 needs none but assumes no two sibling subtrees of the block hash alike',
         'soundness is stated for a proof whose transaction count equals the block size (the count is not committed to by the root: C20_altered_count_refuted)',
     ],
-    explanation='theorems: Bitcoin partial merkle tree (spec: tree datatype, builder, level-by-level root) is accepted by the modelled extractor with the block root and exactly the matched ids in block order, for every count 1..16666 and every subset (induction on tree height, odd widths via Node1); tree hash = level-by-level root; soundness, altered-hash, surplus-hash/flag-byte, out-of-range-count theorems; refutations for in-range count, padding bit, leaf bit; claim shape, peg-in flag bit, fee/value split (partial: fee <= amount; refuted beyond). K: independent Go builder vs spec builder (blob bytes), implementation parser+ExtractMatches vs model on valid, corrupted and malformed blobs, pegin.Claim serialization vs model. S: the statement on the implementation incl. the full single-corruption matrix.',
+    explanation='theorems: Bitcoin partial merkle tree (spec: tree datatype, builder, level-by-level root) is accepted by the modelled extractor with the block root and exactly the matched ids in block order, for every count 1..16666 and every subset (induction on tree height, odd widths via Node1); tree hash = level-by-level root; soundness, altered-hash, surplus-hash/flag-byte, out-of-range-count theorems; refutations for in-range count, padding bit, leaf bit; claim shape, peg-in flag bit, fee/value split (full: claim succeeds iff fee <= amount, and then the outputs sum to the amount). K: independent Go builder vs spec builder (blob bytes), implementation parser+ExtractMatches vs model on valid, corrupted and malformed blobs, pegin.Claim serialization vs model. S: the statement on the implementation incl. the full single-corruption matrix.',
 )
 
 TEXT = dict(
-    text='Machine-checked proof (Coq): for every block size 1..16666 and every match subset (distinct ids, injective node hash) Bitcoin\'s partial merkle tree is accepted by the model of ExtractMatches and yields the block\'s merkle root (proved equal to the level-by-level root) and exactly the matched ids in block order; accepted proofs with the block root report only block ids in order; altered hashes change the root or are rejected; surplus hashes / flag bytes and out-of-range counts are rejected. The clauses that do not hold of the format (in-range altered count, padding bit, height-0 flag bit) are proved refuted and listed as known findings. Claim: outpoint with peg-in flag, six witness elements in order, outputs sum to the amount when fee <= amount (partial); refuted for fee > amount (uint64 wrap, known finding).',
+    text='Machine-checked proof (Coq): for every block size 1..16666 and every match subset (distinct ids, injective node hash) Bitcoin\'s partial merkle tree is accepted by the model of ExtractMatches and yields the block\'s merkle root (proved equal to the level-by-level root) and exactly the matched ids in block order; accepted proofs with the block root report only block ids in order; altered hashes change the root or are rejected; surplus hashes / flag bytes and out-of-range counts are rejected. The clauses that do not hold of the format (in-range altered count, padding bit, height-0 flag bit) are proved refuted and listed as known findings. Claim: outpoint with peg-in flag, six witness elements in order, outputs sum to the amount for every successful claim and a fee above the amount is refused (after fix 858a1b0 in /repo; the former uint64 wrap is reported as a violation when the fix is reverted).',
     note=COMMON_NOTE + 'Ideal hash (injective H) is a Section hypothesis. btcd/btcutil decoding of the bitcoin transaction and header, and the float64 fee product, are inputs of the model. SHA-256 is executable Gallina, compared bit for bit.',
     technique='Coq proof (structural induction over the merkle tree against a positional model of the Go walker) + differential check with an independent proof builder + corruption-matrix oracle',
 )
